@@ -30,7 +30,7 @@ Lemma hinv_set_queue : forall D h h',
 Proof.
   intros D h h' HI Hw Hnw Hd Hnq Hq.
   assert (Fw : forall a, findw h' a = findw h a) by (intro; unfold findw; rewrite Hw; reflexivity).
-  destruct HI as [K P PL O F R C I RP Q Dg NW NQ].
+  destruct HI as [K P PL O F R C I RP Q Dg NW NWR NQ].
   constructor.
   - intros a c Hf. rewrite Fw in Hf. destruct (K a c Hf) as [l [Hc Hl]]. exists l. split.
     + eapply chain_same_wins; eauto.
@@ -48,6 +48,7 @@ Proof.
     exists x, p, cx. rewrite Fw. repeat split; auto. eapply anc_same_wins; eauto.
   - rewrite Hd. exact Dg.
   - intros a Ha. rewrite Fw in Ha. rewrite Hnw. auto.
+  - rewrite Hnw. exact NWR.
   - exact Hnq.
 Qed.
 
